@@ -22,6 +22,9 @@
     (even of a different length); the burst theorem says nothing about that string, and the check passes
       (a) always, when the decoded values equal the original ones (a re-spelling such as
           0x01 -> 0xf5: CBOR true read as 1) - [C08_detect_refuted_same_value];
+      (a') when only an EID differs and the implementation's EID text conversion maps the altered
+          text back to the original octets ('/' -> '?': urlsplit drops the query) -
+          [C08_detect_refuted_eid];
       (b) when the CRC of the re-encoding collides with the stored value (1 in 2^16 / 2^32 corruptions
           of that kind; a CRC-16 instance found by search) - [C08_detect_refuted]: one bit turns the
           BTSD head from bstr into tstr, the BTSD is read as None, and the bundle is accepted and
@@ -233,3 +236,18 @@ Theorem C08_detect_refuted_same_value :
                    /\ lblock_reencode lb <> firstn 12 (skipn 39 (xor_at 40 [244] witness_octets))).
 Proof. exact detect_refuted_same_value. Qed.
 Print Assumptions C08_detect_refuted_same_value.
+
+(** One bit in the source EID of a CRC-16 protected primary block (//a/ -> //a?): the strict reading
+    fails the check, but the implementation re-encodes the EID through its text conversion (urlsplit
+    drops the query, the empty path becomes "/") - the re-encoding is the ORIGINAL primary block, the
+    check passes, and the bundle is processed under the altered source. *)
+Theorem C08_detect_refuted_eid :
+  strict_verdict eid_witness_octets = (2, true)
+  /\ lax_verdict (xor_at 26 [16] eid_witness_octets) = 2
+  /\ (exists b, decode_bundle (xor_at 26 [16] eid_witness_octets) = Some b
+                /\ src (prim b) = EidDtn [47; 47; 97; 63]
+                /\ crc_ok_primary (prim b) = false
+                /\ crc_ok_primary (impl_norm_primary (prim b)) = true
+                /\ encode_primary (impl_norm_primary (prim b)) = firstn 49 (skipn 1 eid_witness_octets)).
+Proof. exact detect_refuted_eid. Qed.
+Print Assumptions C08_detect_refuted_eid.
